@@ -376,11 +376,14 @@ def rule_r5(chk):
     im = chk.repo.mod("irispie.incidences.main")
     st = im.func("sort_tokens")
     chk.saw(im, "sort_tokens")
-    r = single_return(st)
-    key = next((k.value for k in getattr(r, "keywords", []) if k.arg == "key"), None)
-    ok = isinstance(key, ast.Lambda) and squash(key.body) == f"(-{key.args.args[0].arg}.shift,{key.args.args[0].arg}.qid)" and dotted(r.func) == "sorted" \
-        and not any(k.arg == "reverse" for k in r.keywords)
-    chk.ob("C01-R5", "incidences.main.sort_tokens", ok, f"key = {unparse(key.body) if isinstance(key, ast.Lambda) else '?'}", im.loc(st))
+    try:
+        toks = [fin.FinObj(qid=q_, shift=s_) for q_, s_ in ((2, 0), (0, -1), (1, 1), (0, 1), (1, 0), (0, 0), (2, -2))]
+        got = [(t.shift, t.qid) for t in fin.module_funcs(im)["sort_tokens"](list(toks))]
+        want = sorted(((t.shift, t.qid) for t in toks), key=lambda x_: (-x_[0], x_[1]))
+        chk.ob("C01-R5", "incidences.main.sort_tokens", got == want, "sorted by (-shift, qid): leads first, then by variable" if got == want else
+               f"orders (shift, qid) pairs as {got}, expected {want}", im.loc(st), sure=True)
+    except (fin.NotFinite, fin.Raised, TypeError, AttributeError) as ex:
+        chk.undecided("C01-R5", "incidences.main.sort_tokens", f"not finitely evaluable: {type(ex).__name__}: {ex}", im.loc(st))
     dm = chk.repo.mod(DSC)
     class _Tk(fin.FinObj):
         def __init__(self, qid, shift):
@@ -589,6 +592,7 @@ def run(chk):
     chk.guard(c02.rule_r6, chk, rid="C01-R7", sites=(1,))
     from . import c06
     chk.guard(c06.rule_r7, chk, rid="C01-R8", modules=("irispie.fords.simulators", "irispie.fords.shock_simulators"))
+    chk.guard(c06.rule_r8, chk, rid="C01-R12")
     from .. import unused as _unused
     chk.guard(_unused.apply, chk, "C01-R91")
     from .. import basis as _basis
